@@ -193,7 +193,20 @@ def check(prog, rep, tier):
                     rd = strip_epochs(("sub", ("f", SELF, ARR, 0), byte, 0))
                     want_set = norm(("bin", "|", rd, mask))
                     want_clr = norm(("bin", "&", rd, ("un", "~", mask)))
-                    shape = "set" if v == want_set else ("clear" if v == want_clr else None)
+                    want_clr2 = norm(("bin", "&", rd, ("bin", "^", C(255), mask)))  # inside a byte, 0xFF ^ m is ~m
+                    shape = "set" if v == want_set else ("clear" if v in (want_clr, want_clr2) else None)
+                    if shape is None and "val" in f.params:
+                        # branch-free form: blank the bit, then or in val << (idx%8) - the set for val = 1, the clear for val = 0
+                        k_ = ("bin", "<<", ("p", "val"), ("bin", "%", ip, C(8)))
+                        if v in (norm(("bin", "|", want_clr, k_)), norm(("bin", "|", want_clr2, k_))):
+                            iv = Intervals(conds, {}, crange).iv(("p", "val"))
+                            if iv[0] is not None and iv[1] is not None and 0 <= iv[0] and iv[1] <= 1:
+                                rep.ok("C20.addressing", f"{CLS}.{f.src_name}: blend store (old&~m) | (val<<(idx%8)): old|m for val = 1")
+                                rep.ok("C20.addressing", f"{CLS}.{f.src_name}: blend store (old&~m) | (val<<(idx%8)): old&~m for val = 0")
+                                biv = (0, 255)
+                                rep.ok("C20.byte-range", f"{CLS}.{f.src_name}: stored byte in {fmt_iv(biv)} (val = 1)")
+                                rep.ok("C20.byte-range", f"{CLS}.{f.src_name}: stored byte in {fmt_iv(biv)} (val = 0)")
+                                continue
                     if shape is None:
                         rep.bad("C20.addressing", f"{CLS}.{f.src_name}", f"store {nshow(value)}",
                                 f"stored value {nshow(value)} is neither old|m nor old&~m with m = 1<<(idx%8)", loc)
@@ -260,6 +273,12 @@ def check(prog, rep, tier):
             for (p, kind, index, value, conds, loc, e) in accesses:
                 i = strip_epochs(index)
                 ok = i[0] == "it" and strip_epochs(i[2]) == ("call", ("g", "range"), (L,), ())
+                if not ok and i[0] == "it" and strip_epochs(i[2]) == ("call", ("g", "range"), (("call", ("g", "len"), (("f", SELF, ARR, 0),), ()),), ()):
+                    ok = True  # range(len(self._bitarray)): every position of the allocation
+                if not ok and i[0] == "ix" and strip_epochs(i[2]) == ("f", SELF, ARR, 0):
+                    # enumerate(self._bitarray): every position of the allocation; a store skipped only where the byte is already falsy (0)
+                    ok = all(strip_epochs(c.atom) == ("it", i[1], i[2]) and c.truth for c in p.conds[:e.ncond]
+                             if any(n[0] in ("it", "ix") and n[1] == i[1] for n in walk(strip_epochs(c.atom))))
                 if f.src_name == "clear":
                     ok = ok and kind == "store" and value == C(0)
                     if i == ("slc", C(None), C(None), C(None)) and kind == "store":
